@@ -121,12 +121,17 @@ pub struct Context<'a> { _p: core::marker::PhantomData<&'a ()> }
 
 // tokio::runtime::Handle::try_current(): whether a runtime is entered is ambient; the result is unconstrained
 // (contracts must hold for both outcomes).
+// `runtime_entered()`: the calling code runs inside a tokio runtime (ambient, fixed during one synchronous step; unconstrained:
+// contracts hold for both values unless they require it).
+pub uninterp spec fn runtime_entered() -> bool;
 pub struct Handle { pub _p: () }
 #[derive(Debug)]
 pub struct TryCurrentError { pub _p: () }
 impl Handle {
     #[verifier::external_body]
-    pub fn try_current() -> core::result::Result<Handle, TryCurrentError> { unimplemented!() }
+    pub fn try_current() -> (r: core::result::Result<Handle, TryCurrentError>)
+        ensures r is Ok <==> runtime_entered()
+    { unimplemented!() }
 }
 
 // ---- widening: methods the extracted code does not use today, specified so that code that starts using them
